@@ -293,6 +293,11 @@ impl Peer {
         sh.budget = b;
         if !could && can_write(&sh) {
             fire(&sh, &self.readiness, Ready::writable());
+        } else if could && !can_write(&sh) {
+            // the transport's buffer is full from now on: a (re-)registration must not find it
+            // writable (a socket whose peer stopped reading reports no EPOLLOUT, also to someone who
+            // has not tried to write yet and so has never seen a would-block)
+            let _ = self.readiness.set_readiness(truth(&sh));
         }
     }
 
